@@ -71,7 +71,11 @@ class Diff1d(Contract):
         out = [('same length as the run', I(result.shape[0]) == I(m) if not isinstance(result.shape[0], int) else I(m) == result.shape[0]),
                ('fresh array (the run itself is not overwritten)', result.buf.id != arr.buf.id)]
         r = R(result.at(E, [k]))
-        a = lambda j: R(arr.at(E, [Sym(z3.simplify(j), 'int')]))
+        def a(j):
+            j = z3.simplify(j)
+            if getattr(E, 'valuation', None) is not None and z3.is_int_value(j) and not (0 <= j.as_long() < int(m)):
+                return z3.RealVal(0)      # replay: branches of the stencil that are not selected may name cells outside the run
+            return R(arr.at(E, [Sym(j, 'int')]))
         fac, rhs = stencil(order, I(m), I(k), a, dx)
         out.append((f'run not longer than the order ({order}): zero', z3.Implies(I(m) <= order, r == 0)))
         out.append((f'run longer than the order: derivative[k] * {"2dx (dx for two cells)" if order == 1 else "dx^2"} == stencil at k', z3.Implies(I(m) > order, r * fac == rhs)))
